@@ -10,7 +10,7 @@ pub enum Doc {
     Bool(bool),
     Int(i64),
     Str(String),
-    /// `#d<16 hex digits>`: an f64 by its bits (finite); json number / toml float
+    /// `#d<16 hex digits>`: an f64 by its bits; json number (finite only) / toml float
     Float(u64),
     /// `#u<digits>`: a u64 above i64::MAX (json only)
     U64(u64),
@@ -90,7 +90,7 @@ impl<'a> P<'a> {
                         let txt = std::str::from_utf8(&self.b[st..self.i]).ok()?;
                         if txt.len() != 16 { return None; }
                         let bits = u64::from_str_radix(txt, 16).ok()?;
-                        if !f64::from_bits(bits).is_finite() { return None; }
+                        // non-finite bit patterns are accepted here: toml can hold `nan` / `inf` (serde_json cannot: the conversion fails there)
                         Some(Doc::Float(bits))
                     }
                     b'u' => {
